@@ -136,13 +136,15 @@ impl TDigest {
 
             if proposed_weight <= k_limit {
                 // Merge centroid into current
-                // A weighted mean of values in [min, max] lies in [min, max]; clamp so that
-                // rounding or overflow of the products cannot move it outside (or to +-inf).
+                // A weighted mean of two values lies between them; bound it by both so that
+                // rounding or overflow of the products cannot move it past either one (or to
+                // +-inf), which would also break the ordering of the centroids by mean.
                 current.mean = (current
                     .mean
                     .mul_add(current.weight, centroid.mean * centroid.weight)
                     / proposed_weight)
-                    .clamp(self.min, self.max);
+                    .max(current.mean)
+                    .min(centroid.mean);
                 current.weight = proposed_weight;
             } else {
                 // Push current and start a new one
